@@ -33,9 +33,7 @@ func resultType(sig *types.Signature) types.Type {
 
 func (x *Exec) call(fr *Frame, st *State, cc *ssa.CallCommon, res ssa.Value, p token.Pos) *Val {
 	v := x.call1(fr, st, cc, res, p)
-	if !fr.inline {
-		x.coverBudget = 3
-	}
+	x.coverBudget = 3
 	if f, ok := cc.Value.(*ssa.Function); ok && v != nil {
 		if fr.callVals == nil {
 			fr.callVals = map[string][]*Val{}
